@@ -51,6 +51,8 @@ let doms : (string, int array) Hashtbl.t = Hashtbl.create 7
 let fors : (string, forest) Hashtbl.t = Hashtbl.create 7
 let edges : (string, string * dd) Hashtbl.t = Hashtbl.create 31   (* name -> forest, tree *)
 
+let idxsets : (string, string * dd) Hashtbl.t = Hashtbl.create 7   (* index set name -> source set *)
+
 let line = ref 0
 let emit s = Printf.printf "@%d %s\n" !line s
 
@@ -96,6 +98,25 @@ let show name =
   let (fn, t) = get_edge name in
   let f = get_forest fn in
   emit (Printf.sprintf "%s tab=%s dump=%s" name (table_str f t) (dump_str f t))
+
+(* assignment printed as the implementation's iterator prints it *)
+let asg_str f (x : nat -> nat) =
+  let k = Array.length f.sizes in
+  let parts = List.init k (fun j ->
+      let v = k - j in
+      if f.rel then Printf.sprintf "%d>%d" (int_of_nat (x (nat_of_int (2 * v)))) (int_of_nat (x (nat_of_int (2 * v - 1))))
+      else string_of_int (int_of_nat (x (nat_of_int v)))) in
+  Stdlib.String.concat "." parts
+
+(* ---- EV+ (and index-set) functions are handled at table level:
+   +infinity is the sentinel [inf] ---- *)
+let inf = 1 lsl 50
+let evtabs : (string, string * int list) Hashtbl.t = Hashtbl.create 31
+let ev_str v = if v >= inf then "inf" else string_of_int v
+let show_ev name =
+  let (_, tb) = Hashtbl.find evtabs name in
+  emit (Printf.sprintf "%s tab=%s" name (Stdlib.String.concat "," (List.map ev_str tb)))
+let ev_value s = if s = "inf" then inf else int_of_string s
 
 (* ---- parsing helpers ---- *)
 
@@ -262,8 +283,38 @@ let run toks =
               rule = (match rl with "fr" -> FR | "qr" -> QR | _ -> IR);
               sizes = Hashtbl.find doms d } in
     Hashtbl.replace fors fnm f
+  | "coll" :: a :: fn :: mode :: dv :: rest when (try (get_forest fn).lab = EVP with _ -> false) ->
+    Hashtbl.remove edges a; Hashtbl.remove evtabs a;
+    let f = get_forest fn in
+    let rec mts toks acc = match toks with
+      | [] -> List.rev acc
+      | ";" :: t ->
+        let (ps, t') = parse_positions f t in
+        (match t' with
+         | "=>" :: v :: t'' -> mts t'' ((ps, z_of_int (ev_value v)) :: acc)
+         | _ -> failwith "coll syntax")
+      | _ -> failwith "coll syntax" in
+    let ms = mts rest [] in
+    let comb = if mode = "max" then zmax else zmin in
+    let l = nat_of_int (nlev f) in
+    let tb = List.map (fun x -> int_of_z (build_spec comb (z_of_int (ev_value dv)) l ms x)) (all_asg (szf f) l) in
+    Hashtbl.replace evtabs a (fn, tb); show_ev a
+  | "minterm" :: a :: fn :: dv :: v :: ":" :: rest when (try (get_forest fn).lab = EVP with _ -> false) ->
+    Hashtbl.remove edges a; Hashtbl.remove evtabs a;
+    let f = get_forest fn in
+    let (ps, _) = parse_positions f rest in
+    let l = nat_of_int (nlev f) in
+    let tb = List.map (fun x -> int_of_z (build_spec zmax (z_of_int (ev_value dv)) l [(ps, z_of_int (ev_value v))] x))
+        (all_asg (szf f) l) in
+    Hashtbl.replace evtabs a (fn, tb); show_ev a
+  | "const" :: a :: fn :: v :: _ when (try (get_forest fn).lab = EVP with _ -> false) ->
+    Hashtbl.remove edges a; Hashtbl.remove evtabs a;
+    let f = get_forest fn in
+    let l = nat_of_int (nlev f) in
+    let tb = List.map (fun _ -> ev_value v) (all_asg (szf f) l) in
+    Hashtbl.replace evtabs a (fn, tb); show_ev a
   | "coll" :: a :: fn :: mode :: dv :: rest ->
-    Hashtbl.remove edges a;
+    Hashtbl.remove edges a; Hashtbl.remove evtabs a;
     let f = get_forest fn in
     if f.lab <> MT then raise Unsupported;
     let rec mts toks acc = match toks with
@@ -279,20 +330,20 @@ let run toks =
     let t = build (szf f) comb (z_of_int (value f dv)) f.rule (nat_of_int (nlev f)) O ms in
     set_edge a fn t; show a
   | "minterm" :: a :: fn :: dv :: v :: ":" :: rest ->
-    Hashtbl.remove edges a;
+    Hashtbl.remove edges a; Hashtbl.remove evtabs a;
     let f = get_forest fn in
     if f.lab <> MT then raise Unsupported;
     let (ps, _) = parse_positions f rest in
     let t = build (szf f) zmax (z_of_int (value f dv)) f.rule (nat_of_int (nlev f)) O [(ps, z_of_int (value f v))] in
     set_edge a fn t; show a
   | "const" :: a :: fn :: v :: _ ->
-    Hashtbl.remove edges a;
+    Hashtbl.remove edges a; Hashtbl.remove evtabs a;
     let f = get_forest fn in
     if f.lab <> MT then raise Unsupported;
     let t = const_dd (szf f) f.rule (nat_of_int (nlev f)) (z_of_int (value f v)) in
     set_edge a fn t; show a
   | "var" :: a :: fn :: k :: up :: terms ->
-    Hashtbl.remove edges a;
+    Hashtbl.remove edges a; Hashtbl.remove evtabs a;
     let f = get_forest fn in
     if f.lab <> MT then raise Unsupported;
     let k = int_of_string k in
@@ -302,8 +353,47 @@ let run toks =
       else List.map (fun s -> z_of_int (value f s)) terms in
     let t = var_dd (szf f) f.rule (nat_of_int (nlev f)) (nat_of_int p) ts in
     set_edge a fn t; show a
+  | "apply" :: r :: fn :: (("post" | "pre" | "reach_fs" | "reach_nofs" | "reach_sat"
+                            | "rreach_fs" | "rreach_nofs" | "rreach_sat" | "vm" | "mv") as op) :: a :: b :: _ ->
+    Hashtbl.remove edges r; Hashtbl.remove evtabs r;
+    let fr = get_forest fn in
+    let (fan, ta) = get_edge a and (fbn, tb) = get_edge b in
+    let fa = get_forest fan and fb = get_forest fbn in
+    if fr.lab <> MT || fa.lab <> MT || fb.lab <> MT then raise Unsupported;
+    (* set/vector operand and relation/matrix operand *)
+    let (fs, ts, fm, tm) = if op = "mv" then (fb, tb, fa, ta) else (fa, ta, fb, tb) in
+    if fs.rel || (not fm.rel) || fr.rel || fs.fdom <> fm.fdom || fr.fdom <> fs.fdom then raise Unsupported;
+    let k = nat_of_int (Array.length fs.sizes) in
+    let szs = szf fs in
+    let t = (match op with
+        | "post" | "pre" | "reach_fs" | "reach_nofs" | "reach_sat" | "rreach_fs" | "rreach_nofs" | "rreach_sat" ->
+          if fs.range <> RBool || fm.range <> RBool || fr.range <> RBool then raise Unsupported;
+          (match op with
+           | "post" -> post_dd szs k fs.rule fm.rule fr.rule ts tm
+           | "pre" -> pre_dd szs k fs.rule fm.rule fr.rule ts tm
+           | "reach_fs" | "reach_nofs" | "reach_sat" ->
+             (match reach_dd szs k fs.rule fm.rule fr.rule ts tm with Some t -> t | None -> raise Unsupported)
+           | _ ->
+             (match rreach_dd szs k fs.rule fm.rule fr.rule ts tm with Some t -> t | None -> raise Unsupported))
+        | "vm" ->
+          if fs.range <> RInt || fm.range <> RInt || fr.range <> RInt then raise Unsupported;
+          vm_dd szs k fs.rule fm.rule fr.rule ts tm
+        | _ ->
+          if fs.range <> RInt || fm.range <> RInt || fr.range <> RInt then raise Unsupported;
+          mv_dd szs k fs.rule fm.rule fr.rule tm ts) in
+    set_edge r fn t; show r
+  | "apply" :: r :: fn :: "cross" :: a :: b :: _ ->
+    Hashtbl.remove edges r; Hashtbl.remove evtabs r;
+    let fr = get_forest fn in
+    let (fan, ta) = get_edge a and (fbn, tb) = get_edge b in
+    let fa = get_forest fan and fb = get_forest fbn in
+    if fr.lab <> MT || fa.lab <> MT || fb.lab <> MT then raise Unsupported;
+    if fa.rel || fb.rel || (not fr.rel) || fa.fdom <> fb.fdom || fa.fdom <> fr.fdom then raise Unsupported;
+    if fa.range <> RBool || fb.range <> RBool || fr.range <> RBool then raise Unsupported;
+    let t = cross_dd (szf fa) (nat_of_int (Array.length fa.sizes)) fa.rule fb.rule fr.rule ta tb in
+    set_edge r fn t; show r
   | "apply" :: r :: fn :: op :: a :: b :: _ ->
-    Hashtbl.remove edges r;
+    Hashtbl.remove edges r; Hashtbl.remove evtabs r;
     let fr = get_forest fn in
     let (fan, ta) = get_edge a and (fbn, tb) = get_edge b in
     let fa = get_forest fan and fb = get_forest fbn in
@@ -325,8 +415,8 @@ let run toks =
     if List.exists2 (fun x y -> scalar2_undefined o x y) tabA tabB then raise Unsupported;
     let t = apply2 (szf fr) fsc fa.rule fb.rule fr.rule l O ta tb in
     set_edge r fn t; show r
-  | "unary" :: r :: fn :: op :: a :: _ ->
-    Hashtbl.remove edges r;
+  | "unary" :: r :: fn :: op :: a :: _ when op <> "index" ->
+    Hashtbl.remove edges r; Hashtbl.remove evtabs r;
     let fr = get_forest fn in
     let (fan, ta) = get_edge a in
     let fa = get_forest fan in
@@ -430,6 +520,49 @@ let run toks =
           if bad = [] then emit obs
           else emit ("audit FAILED " ^ Stdlib.String.concat " " (List.map (fun (c, h) ->
               Printf.sprintf "%s@%d" (clause_name (int_of_nat c)) (int_of_z h)) bad))))
+  | "iter" :: a :: mask ->
+    let (fn, t) = get_edge a in
+    let f = get_forest fn in
+    if f.lab <> MT then raise Unsupported;
+    let m = if mask = [] then [] else fst (parse_positions f mask) in
+    let l = enum (szf f) f.rule (nat_of_int (nlev f)) t m in
+    emit (Stdlib.String.concat " " ("iter" :: List.map (fun (x, v) ->
+        asg_str f x ^ "=" ^ string_of_int (int_of_z v)) l))
+  | "card" :: a :: _ ->
+    let (fn, t) = get_edge a in
+    let f = get_forest fn in
+    if f.lab <> MT then raise Unsupported;
+    let c = int_of_nat (cardinality (szf f) f.rule (nat_of_int (nlev f)) t) in
+    emit (Printf.sprintf "card long=%d double=%d mpz=%d nodes=%d edges=%d" c c c
+            (int_of_nat (node_count t)) (int_of_nat (edge_count t)))
+  | "range" :: a :: _ ->
+    let (fn, t) = get_edge a in
+    let f = get_forest fn in
+    if f.lab <> MT then raise Unsupported;
+    let tb = List.map int_of_z (table (szf f) f.rule (nat_of_int (nlev f)) t) in
+    emit (Printf.sprintf "range max=%d min=%d" (List.fold_left max min_int tb) (List.fold_left min max_int tb))
+  | "unary" :: r :: fn :: "index" :: a :: _ ->
+    Hashtbl.remove edges r;
+    Hashtbl.remove idxsets r;
+    let (fan, ta) = get_edge a in
+    let fa = get_forest fan in
+    if fa.lab <> MT || fa.rel then raise Unsupported;
+    let l = nat_of_int (nlev fa) in
+    let tb = index_table (szf fa) fa.rule l ta in
+    Hashtbl.replace idxsets r (fan, ta);
+    emit (Printf.sprintf "%s tab=%s" r (Stdlib.String.concat "," (List.map (function
+        | Some i -> string_of_int (int_of_nat i) | None -> "inf") tb)))
+  | "getelem" :: i :: lo :: hi :: _ ->
+    let (fan, ta) = try Hashtbl.find idxsets i with Not_found -> raise Unsupported in
+    let fa = get_forest fan in
+    let l = nat_of_int (nlev fa) in
+    let lo = int_of_string lo and hi = int_of_string hi in
+    let parts = List.init (hi - lo + 1) (fun j ->
+        match get_element (szf fa) fa.rule l ta (z_of_int (lo + j)) with
+        | Some x -> asg_str fa x
+        | None -> "none") in
+    emit (Stdlib.String.concat " " ("getelem" :: parts))
+  | "show" :: a :: _ when Hashtbl.mem evtabs a -> show_ev a
   | "show" :: a :: _ -> show a
   | "eq" :: a :: b :: _ ->
     let (fa, ta) = get_edge a and (fb, tb) = get_edge b in
@@ -437,8 +570,11 @@ let run toks =
   | "copyedge" :: b :: a :: _ | "assign" :: b :: a :: _ ->
     (match Hashtbl.find_opt edges a with
      | Some e -> Hashtbl.replace edges b e
-     | None -> Hashtbl.remove edges b)
-  | "release" :: a :: _ -> Hashtbl.remove edges a
+     | None -> Hashtbl.remove edges b);
+    (match Hashtbl.find_opt evtabs a with
+     | Some e -> Hashtbl.replace evtabs b e
+     | None -> Hashtbl.remove evtabs b)
+  | "release" :: a :: _ -> Hashtbl.remove edges a; Hashtbl.remove evtabs a
   | _ -> ()
 
 let () =
